@@ -67,6 +67,20 @@ fn run_str(src: &str) -> Value {
     result_json(catch_unwind(AssertUnwindSafe(|| build_str(src))))
 }
 
+/// Same as run_str but reports image lengths instead of contents (for multi-megabyte images).
+fn run_str_lens(src: &str) -> Value {
+    let mut r = run_str(src);
+    if r["r"] == "ok" {
+        let cl = r["code"].as_str().map(|x| x.len() / 2).unwrap_or(0);
+        let el = r["eeprom"].as_str().map(|x| x.len() / 2).unwrap_or(0);
+        r["code_len"] = json!(cl);
+        r["eeprom_len"] = json!(el);
+        r["code"] = json!("");
+        r["eeprom"] = json!("");
+    }
+    r
+}
+
 /// The specification's image pattern (IHex.tla, Img): every byte value occurs, and the
 /// pattern differs across 256-byte and 64 KiB blocks so that a shifted block is visible.
 fn img(seed: u64, i: u64) -> u8 {
@@ -352,7 +366,13 @@ fn main() {
         }
         let t0 = std::time::Instant::now();
         let mut r = match s(&j, "k").as_str() {
-            "str" => run_str(&s(&j, "src")),
+            "str" => {
+                if j.get("nohex").and_then(|v| v.as_bool()).unwrap_or(false) {
+                    run_str_lens(&s(&j, "src"))
+                } else {
+                    run_str(&s(&j, "src"))
+                }
+            }
             "file" => run_file(&j),
             "hex" => run_hex(&j),
             "seq" => run_seq(&j),
